@@ -25,3 +25,22 @@ ROLES = {
     'rimt::RIMT': [('handle_offset', INT)],
     'viot::VIOT': [('handle_offset', INT)],
 }
+
+def is_vec(ty): return ty.startswith('alloc::vec::Vec<')
+
+def vector_roles():
+    """the entry / element vectors the layout specification names (spec/layouts.py VECTORS, ENTRY_VECTORS): in a struct
+    with exactly one private Vec field that field is the vector, whatever it is called"""
+    try:
+        import layouts as L
+    except ImportError:
+        return {}
+    out = {}
+    pairs = [(k[0], v) for k, v in L.VECTORS.items()] + list(L.ENTRY_VECTORS.items())
+    for ty, path in pairs:
+        parts = path.split('.')
+        if len(parts) != 2 or parts[0] != 'self': continue
+        if any(c == parts[1] for c, _ in ROLES.get(ty, [])): continue
+        out.setdefault(ty, [])
+        if (parts[1], is_vec) not in out[ty]: out[ty].append((parts[1], is_vec))
+    return out
